@@ -239,6 +239,14 @@ def _cmp(op, a, b):
     return mk_bool(t)
 
 
+def _list_repeat(items, n):
+    """[x] * n with a symbolic int n (see vec.py)"""
+    if not isinstance(n, SymInt):
+        raise OutOfReach("list * symbolic non-int")
+    from . import vec
+    return vec.repeat(items, n)
+
+
 class _SymNum:
     __slots__ = ("t",)
 
@@ -249,8 +257,8 @@ class _SymNum:
     def __radd__(self, o): return _arith("add", self, o, True)
     def __sub__(self, o): return _arith("sub", self, o)
     def __rsub__(self, o): return _arith("sub", self, o, True)
-    def __mul__(self, o): return _arith("mul", self, o)
-    def __rmul__(self, o): return _arith("mul", self, o, True)
+    def __mul__(self, o): return _list_repeat(o, self) if isinstance(o, list) else _arith("mul", self, o)
+    def __rmul__(self, o): return _list_repeat(o, self) if isinstance(o, list) else _arith("mul", self, o, True)
     def __truediv__(self, o): return _arith("truediv", self, o)
     def __rtruediv__(self, o): return _arith("truediv", self, o, True)
     def __floordiv__(self, o): return _arith("floordiv", self, o)
@@ -309,10 +317,36 @@ class SymInt(_SymNum):
     def __float__(self):
         raise OutOfReach("float() through the C API on a symbolic int")
 
+    # bitwise operators: uninterpreted bit model of pyvc/bits.py (OutOfReach outside its fragment)
     def __and__(self, o):
-        raise OutOfReach("bitwise op on symbolic int")
+        from . import bits
+        return bits.band(self, o)
 
-    __or__ = __xor__ = __lshift__ = __rshift__ = __rand__ = __ror__ = __rxor__ = __and__
+    def __or__(self, o):
+        from . import bits
+        return bits.bor(self, o)
+
+    def __xor__(self, o):
+        from . import bits
+        return bits.bxor(self, o)
+
+    __rand__, __ror__, __rxor__ = __and__, __or__, __xor__
+
+    def __lshift__(self, o):
+        from . import bits
+        return bits.shl(self, o)
+
+    def __rlshift__(self, o):
+        from . import bits
+        return bits.shl(o, self)
+
+    def __rshift__(self, o):
+        from . import bits
+        return bits.shr(self, o)
+
+    def __rrshift__(self, o):
+        from . import bits
+        return bits.shr(o, self)
 
 
 class SymReal(_SymNum):
